@@ -73,6 +73,8 @@ def main(argv):
     seed, shard, nshards = int(seed), int(shard), int(nshards)
     scale = float(argv[6]) if len(argv) > 6 else 1.0
     use_repo()
+    from . import cover
+    covering = cover.start(prop)
     jobs = campaign.all_jobs(prop, tier, seed, scale)
     mine = jobs[shard::nshards]
     agg = {'prop': prop, 'tier': tier, 'seed': seed, 'shard': shard, 'jobs': len(mine),
@@ -136,6 +138,7 @@ def main(argv):
                                  'case': own or out.get('witness', out.get('case'))}
                 agg['violations'].append(vv)
     agg['wall'] = time.time() - t0
+    agg['cover'] = cover.report() if covering else {}
     for k in ('hashes', 'nontrivial_hashes', 'sigs'):
         agg[k] = sorted(agg[k])
     agg['states'] = len(agg['states'])
